@@ -83,6 +83,14 @@ def diff_variants():
     add('zero-sides', ['@@ -0,0 +1,2 @@', '+a', '+b', '@@ -5,2 +6,0 @@',
                        '-c', '-d'], 2, 2)
     add('omitted-counts', ['@@ -1 +1 @@', '-a', '+b'], 1, 1)
+    # a count given on one side only (git: new one-line file, -U0 one-line
+    # insert / delete, two lines joined, one line split)
+    add('omitted-new-zero-old', ['@@ -0,0 +1 @@', '+x'], 1, 0)
+    add('omitted-new-u0', ['@@ -3,0 +4 @@', '+x', '@@ -9 +10,0 @@', '-y'],
+        1, 1)
+    add('omitted-new-two-old', ['@@ -1,2 +1 @@', '-a', '-b', '+ab'], 1, 2)
+    add('omitted-old-two-new', ['@@ -1 +1,2 @@', '-ab', '+a', '+b'], 2, 1)
+    add('omitted-old-zero-new', ['@@ -1 +0,0 @@', '-x'], 0, 1)
     # unanalysed
     add('truncated', ['@@ -1,3 +1,3 @@', '-a', '+b'], None, None, False)
     add('garbage-in-hunk', ['@@ -1,2 +1,2 @@', '-a', 'oops', '+b'], None,
